@@ -16,6 +16,7 @@ mod executor;
 mod ttl_ops;
 mod conn;
 mod shard_actor;
+mod sync_keys;
 use std::panic;
 
 pub struct Found {
@@ -68,6 +69,7 @@ fn main() {
         "err_frame" => executor::search_err(&pid, &oid, seed),
         "conn" | "batch_collect" => conn::search(&pid, &oid, seed),
         "shard_actor" => shard_actor::search(&pid, &oid, seed),
+        "sync_keys" => sync_keys::search(&pid, &oid, seed),
         _ => None,
     };
     match res {
